@@ -2,7 +2,8 @@
     Statements only; proofs in proofs/ContainerProofs.v. FileSpec.v is the layout written from the
     specification: reference writer (any metadata map layout, any blocks) and reference parser. *)
 From Coq Require Import List NArith ZArith.
-Require Import Base Schema VectoredWrite Container FileSpec ContainerProofs.
+Require Import Base Schema Sval Ser Target Reader De AvroValue Encoding Denote Wf VectoredWrite Container FileSpec ContainerProofs.
+Require Import ContainerReadProofs ContainerHeaderProofs.
 Import ListNotations.
 
 (* the reference parser reads back every file of the grammar: magic, metadata map in ANY block
@@ -18,6 +19,49 @@ Theorem C06_layout : forall layout sync st blocks,
   Forall wblock_small blocks ->
   w_sink st = ref_write layout sync (map to_rblock blocks).
 Proof. exact sink_is_ref_write. Qed.
+
+(* the header the crate's writer produces is exactly the reference writer's header for the metadata
+   avro.schema, avro.codec, then the user entries (one map block per entry), and the crate's reader
+   and the reference parser agree on it *)
+Theorem C06_header_is_grammar : forall sync json codec user h,
+  header_bytes sync json codec user = Ok h ->
+  h = ref_write (map one_block (header_entries json codec user)) sync [].
+Proof. exact header_is_ref_write. Qed.
+
+(* CONVERSELY: any file produced by an independent conforming writer -- the reference writer of
+   FileSpec.v: metadata map in ANY block layout and ANY order, extra keys, the two reserved keys at
+   arbitrary positions i, j among them, ANY partition of the values into blocks of count >= 1 --
+   is read correctly by the crate's reader: the metadata, the codec, and exactly the values *)
+Theorem C06_accepts : forall Sc cfg root,
+  schema_wf Sc = true -> fnode_at Sc 0 = Some root ->
+  forall layout sync vblocks user i j json codec,
+  layout_ok layout -> length sync = 16%nat ->
+  Forall (block_ok Sc cfg root) vblocks ->
+  flat_map snd layout = ins_at i (AVRO_SCHEMA_KEY, json) (ins_at j (AVRO_CODEC_KEY, codec) user) ->
+  Forall unreserved user -> Utf8.utf8_valid json = true -> In codec codec_names ->
+  forall k, exists entries r ds,
+    cr_open (slice_reader (ref_write layout sync (map (to_rblock_vals Sc root) vblocks))) = Ok (entries, sync, r) /\
+    header_meta entries = Ok (json, codec, user) /\
+    cr_run Sc cfg sync TAny (length (concat vblocks) + k) (mkCR (RNotInBlock r) false)
+      = map IValue ds ++ repeat IEof k /\
+    map erase_borrow ds = map (dval_any Sc root) (concat vblocks).
+Proof. exact reader_accepts_grammar_interpreted. Qed.
+(* ... and a file without avro.codec is read as the null codec (the specification's default) *)
+Theorem C06_accepts_codec_absent : forall Sc cfg root,
+  schema_wf Sc = true -> fnode_at Sc 0 = Some root ->
+  forall layout sync vblocks user i json,
+  layout_ok layout -> length sync = 16%nat ->
+  Forall (block_ok Sc cfg root) vblocks ->
+  flat_map snd layout = ins_at i (AVRO_SCHEMA_KEY, json) user ->
+  Forall unreserved user -> Utf8.utf8_valid json = true ->
+  forall k, exists entries r ds,
+    cr_open (slice_reader (ref_write layout sync (map (to_rblock_vals Sc root) vblocks))) = Ok (entries, sync, r) /\
+    header_meta entries = Ok (json, NULL_CODEC, user) /\
+    cr_run Sc cfg sync TAny (length (concat vblocks) + k) (mkCR (RNotInBlock r) false)
+      = map IValue ds ++ repeat IEof k /\
+    map erase_borrow ds = map (dval_any Sc root) (concat vblocks).
+Proof. exact reader_accepts_grammar_nocodec. Qed.
+Check HeaderExamples.shuffled_two_block_metadata_file.
 
 (* the specification's long decoder inverts the specification's long encoder, which is the crate's *)
 Theorem C06_long : forall z rest, (I64_MIN <= z <= I64_MAX)%Z -> spec_read_long (Encoding.spec_long z ++ rest) = Some (z, rest).
